@@ -11,6 +11,7 @@
 #include <iostream>
 #include <sstream>
 #include <string>
+#include <sys/resource.h>
 #include <unistd.h>
 
 #include "exec_api.hpp"
@@ -126,7 +127,17 @@ extern "C" void __assert_fail(char const* expr, char const* file, unsigned line,
 }
 static void on_signal(int sig) {
 	std::snprintf(g_crash.assert_msg, sizeof g_crash.assert_msg, "signal %d", sig);
+#if defined(__SANITIZE_ADDRESS__)
+	if(sig == SIGABRT) {  // sanitizer builds run with abort_on_error=1: the report has just been written to stderr
+		std::snprintf(g_crash.assert_msg, sizeof g_crash.assert_msg, "AddressSanitizer/UBSan report (see stderr of the replay)");
+		crash("SANITIZER");
+	}
+#endif
 	crash("ABORT-signal");
+}
+static void on_alarm(int /*sig*/) {
+	std::snprintf(g_crash.assert_msg, sizeof g_crash.assert_msg, "a single simulated run did not finish within 10 s of real time (endless loop or runaway allocation)");
+	crash("HANG");
 }
 static void on_terminate() {
 	std::snprintf(g_crash.assert_msg, sizeof g_crash.assert_msg, "std::terminate called: an exception met a noexcept boundary or escaped a destructor");
@@ -195,6 +206,12 @@ int main(int argc, char** argv) {
 	}
 	std::set_terminate(on_terminate);
 	for(int s : {SIGSEGV, SIGBUS, SIGFPE, SIGABRT, SIGILL}) std::signal(s, on_signal);
+	std::signal(SIGALRM, on_alarm);
+	{
+		struct rlimit rl;
+		rl.rlim_cur = rl.rlim_max = static_cast<rlim_t>(3) << 30;  // 3 GiB of address space per worker: a corrupted size must fail fast
+		setrlimit(RLIMIT_AS, &rl);
+	}
 	W.init();
 	g_primary->setup();
 	g_crash.binary = g_binary_name;
@@ -226,7 +243,9 @@ int main(int argc, char** argv) {
 		}
 		g_crash.seed = p.seed;
 		char const* which = "";
+		alarm(10);
 		RunResult   r     = run_both(p, which);
+		alarm(0);
 		if(r.violated) print_violation("VIOL", 0, p, r, which);
 		std::printf("RESULT {\"violated\":%s,\"hash\":\"%016llx\",\"hash_obs\":\"%016llx\",\"ops_executed\":%d,\"ops_skipped\":%d}\n", r.violated ? "true" : "false", (unsigned long long)r.hash_full, (unsigned long long)r.hash_obs, r.ops_executed, r.ops_skipped);
 		return 0;
@@ -245,6 +264,7 @@ int main(int argc, char** argv) {
 		Plan      p = g.generate();
 		p.seed      = sd;
 		g_crash.seed = sd;
+		alarm(10);  // re-armed for every history (a sweep re-arms it per history, not per injection point)
 		if(!sweep) {
 			char const* which = "";
 			RunResult   r     = run_both(p, which);
